@@ -15,11 +15,16 @@
     it accepts every REGISTER of such a burst (repaired defect);
   * `c26_subscribe_keeps_id`: a SUBSCRIBE to a plain name that is registered already is answered
     under that name's TopicID, no second ID is created (repaired defect);
+  * `c26_register_gateway(_known)` with `c26_register_client`: after the REGISTER exchange the client
+    knows the name under exactly the TopicID that denotes that name in the gateway;
+  * `c26_subscribe_client`: the accepted SUBACK installs the handler and the name ↔ ID binding;
   * `c26_sleep_from_awake_silent` with `c11_wake`: after PINGRESP the gateway takes the client for
     asleep again, and the client's next Sleep() from `awake` sends nothing — the two sides agree on
     the state without a DISCONNECT;
   * `c26_spec_*`: sanity of the specification (every well-formed call is expected to succeed;
-    a routed message with a matching subscription is expected at a handler).
+    a routed message with a matching subscription is expected at a handler), and
+    `c26_spec_agrees_with_broker`: the specification expects a delivery exactly when the conforming
+    broker sends the session a PUBLISH, with the same topic, payload and QoS.
 
   The composed model is executed beside the real client + real gateway + broker on generated
   scripts by the system suite; the specification is evaluated on the implementation's results.
@@ -298,4 +303,129 @@ def exampleAbs : Abs :=
 example : exampleAbs.live = true ∧ (exampleAbs.subs.filter fun s => Broker.filterMatches s.1 [0x61, 0x2F, 0x6E]) ≠ [] := by
   decide
 
+theorem matching_of_table (a : Abs) (b : Broker) (h : b.subs = a.subsTable) (topic : Bytes) :
+    b.matching topic = (a.subs.filter fun s => Broker.filterMatches s.1 topic).map fun s => (s.1, s.2.1) := by
+  unfold Broker.matching
+  rw [h]
+  unfold Abs.subsTable
+  rw [List.filter_map]
+  rfl
+
+theorem foldl_max_map (l : List (Bytes × UInt8 × Bytes)) (z : UInt8) :
+    (l.map fun s => (s.1, s.2.1)).foldl (fun a (s : Bytes × UInt8) => max a s.2) z = l.foldl (fun acc s => max acc s.2.1) z := by
+  induction l generalizing z with
+  | nil => rfl
+  | cons x xs ih => simp only [List.map_cons, List.foldl_cons]; exact ih _
+
+/-- **C26 (specification vs. broker).** When the broker's subscription table is the one the
+    specification tracks, the specification expects a delivery exactly when the broker sends the
+    session a PUBLISH, for the same topic and payload and at the same QoS. -/
+theorem c26_spec_agrees_with_broker (a : Abs) (b : Broker) (h : b.subs = a.subsTable) (hl : a.live = true)
+    (topic payload : Bytes) (qos : UInt8) (ctx : String) :
+    ((b.route topic payload qos).2 = [] ∧ (a.routed topic payload qos ctx).exp = a.exp) ∨
+    (∃ mid d, (b.route topic payload qos).2 = [.publish false d.qos false mid topic payload] ∧
+      (a.routed topic payload qos ctx).exp.deliveries = a.exp.deliveries ++ [d] ∧ d.topic = topic ∧ d.payload = payload) := by
+  unfold Broker.route Abs.routed
+  simp only [hl, Bool.not_true, Bool.false_eq_true, if_false]
+  rw [matching_of_table a b h]
+  cases hm : (a.subs.filter fun s => Broker.filterMatches s.1 topic) with
+  | nil => left; simp
+  | cons x xs =>
+    right
+    simp only [List.map_cons, List.isEmpty_cons, Bool.false_eq_true, if_false]
+    have hf := foldl_max_map (x :: xs) 0
+    simp only [List.map_cons] at hf
+    rw [hf]
+    exact ⟨_, _, rfl, rfl, rfl, rfl⟩
+
 end Bisquitt.Sys
+
+/-! ## the REGISTER exchange: both sides end up with the same name ↔ ID binding -/
+
+namespace Bisquitt.Gw
+open Bisquitt Gw
+
+/-- **C26 (REGISTER exchange, gateway side).** A REGISTER of a new plain name is acknowledged with a
+    TopicID that from then on denotes exactly that name in the gateway. -/
+theorem c26_register_gateway (g g' : Gw) (mid id : UInt16) (name : Bytes) (hw : hasWildcard name = false)
+    (hn : g.findRegisteredId name = none) (ha : g.newTopicId = (some id, g')) :
+    g.handleRegister mid name = (g'.storeRegistered id name).snSend (.regack id mid Gen.RC_ACCEPTED) ∧
+    (g.handleRegister mid name).registered.lookup id = some name := by
+  have h1 : g.handleRegister mid name = (g'.storeRegistered id name).snSend (.regack id mid Gen.RC_ACCEPTED) := by
+    unfold handleRegister
+    simp [hw, hn, ha]
+  refine ⟨h1, ?_⟩
+  rw [h1]
+  unfold snSend storeRegistered
+  split
+  · simp
+  · simp [emit]
+
+/-- … and of a name registered already with the ID it has. -/
+theorem c26_register_gateway_known (g : Gw) (mid id : UInt16) (name : Bytes) (hw : hasWildcard name = false)
+    (hn : g.findRegisteredId name = some id) :
+    g.handleRegister mid name = g.snSend (.regack id mid Gen.RC_ACCEPTED) := by
+  unfold handleRegister
+  simp [hw, hn]
+
+end Bisquitt.Gw
+
+namespace Bisquitt.Cl
+open Bisquitt Cl
+
+/-- **C26 (REGISTER exchange, client side).** The accepted REGACK of its REGISTER makes the client
+    know the name under the gateway's TopicID, and ends the exchange successfully. -/
+theorem c26_register_client (c : Cl) (t : Tx) (id mid : UInt16) (name : Bytes)
+    (hl : c.lookupById mid = some t) (hk : t.kind = .register name) :
+    c.handlePacket (.regack id mid Gen.RC_ACCEPTED) =
+      ({ c with registered := (name, id) :: c.registered } : Cl).finishTx t.id .ok ∧
+    (c.handlePacket (.regack id mid Gen.RC_ACCEPTED)).registered.lookup name = some id := by
+  have h1 : c.handlePacket (.regack id mid Gen.RC_ACCEPTED) =
+      ({ c with registered := (name, id) :: c.registered } : Cl).finishTx t.id .ok := by
+    unfold handlePacket
+    simp [hl, hk]
+  refine ⟨h1, ?_⟩
+  rw [h1]
+  have : ∀ (d : Cl) (i : Nat) (e : Err), (d.finishTx i e).registered = d.registered := by
+    intro d i e
+    unfold finishTx
+    split
+    · split
+      · rfl
+      · unfold runFinally; split <;> (try split) <;> rfl
+    · rfl
+  rw [this]
+  simp
+
+end Bisquitt.Cl
+
+/-! ## the SUBSCRIBE exchange -/
+
+namespace Bisquitt.Cl
+open Bisquitt Cl
+
+theorem finishTx_tables (d : Cl) (i : Nat) (e : Err) :
+    (d.finishTx i e).registered = d.registered ∧ (d.finishTx i e).handlers = d.handlers := by
+  unfold finishTx
+  split
+  · split
+    · exact ⟨rfl, rfl⟩
+    · unfold runFinally; split <;> (try split) <;> exact ⟨rfl, rfl⟩
+  · exact ⟨rfl, rfl⟩
+
+/-- **C26 (SUBSCRIBE exchange, client side).** The accepted SUBACK of a subscription to a plain
+    name installs the handler for that name and, when the gateway assigned a TopicID (C03:
+    `c03_suback`, the ID it registered the name under — `c26_subscribe_keeps_id`), makes the
+    client know the name under that ID. -/
+theorem c26_subscribe_client (c : Cl) (t : Tx) (label name : Bytes) (fl : UInt8) (tid mid stid : UInt16) (d : Bool) (q : UInt8)
+    (hl : c.lookupById mid = some t) (hk : t.kind = .subscribe label)
+    (hd : t.data = some (.subscribe d q Gen.TIT_STRING mid stid name)) (hz : tid ≠ 0) :
+    (c.handlePacket (.suback fl tid mid Gen.RC_ACCEPTED)).registered.lookup name = some tid ∧
+    (c.handlePacket (.suback fl tid mid Gen.RC_ACCEPTED)).handlers.lookup name = some label := by
+  unfold handlePacket
+  simp only [hl, hk, hd]
+  simp only [ne_eq, not_true_eq_false, if_false, if_true, hz, not_false_eq_true]
+  rw [(finishTx_tables _ _ _).1, (finishTx_tables _ _ _).2]
+  simp
+
+end Bisquitt.Cl
